@@ -11,6 +11,7 @@ import chartparse.globalevents as G
 import chartparse.instrument as I
 import chartparse.metadata as MD
 import chartparse.sync as S
+import chartparse.track as T_
 from chartparse.chart import Chart
 from chartparse.exceptions import RegexNotMatchError
 from chartparse.instrument import Difficulty, Instrument
@@ -85,11 +86,36 @@ def framing(n0: int, n1: int, n2: int, b0: str, b1: str, b2: str, b3: str, b4: s
 
 
 class _FakeFile:
+    """A text stream over `text` with the semantics of io.StringIO (no newline translation)."""
+
     def __init__(self, text):
         self.text = text
+        self.pos = 0
 
-    def read(self, *a):
-        return self.text
+    def read(self, n=-1):
+        if n is None or n < 0:
+            r = self.text[self.pos:]
+        else:
+            r = self.text[self.pos:self.pos + n]
+        self.pos += len(r)
+        return r
+
+    def readline(self, *a):
+        i = self.text.find("\n", self.pos)
+        end = len(self.text) if i < 0 else i + 1
+        r = self.text[self.pos:end]
+        self.pos = end
+        return r
+
+    def __iter__(self):
+        while True:
+            ln = self.readline()
+            if not ln:
+                return
+            yield ln
+
+    def readlines(self, *a):
+        return list(self)
 
 
 class _Sent:
@@ -403,6 +429,61 @@ def route_by_path(ni: int, pi: int, crlf: bool, bom: bool, sel0: bool, use_none:
         return done(False)          # e.g. the mark left in front of the first header
     finally:
         _OPENER[0] = _open_text
+
+
+# ---------------------------------------------------------------------------------------------
+# C06 newline independence at file scale: a CRLF pair placed exactly on a power-of-two offset
+# ---------------------------------------------------------------------------------------------
+_FS_OFFSETS = [2 ** k for k in (10, 12, 13, 14, 15, 16, 17)]
+_FS_KINDS = ["}", "{", "[", "N"]          # the line whose terminator straddles the offset: closing brace, opening brace, header, body line
+
+
+def _fs_lines(pad):
+    lines = ["[Song]", "{", '  Name = "' + "x" * pad + '"', "  Resolution = 192", "}", "[SyncTrack]", "{", "  0 = TS 4", "  0 = B 120000", "}",
+             "[Events]", "{", '  0 = E "section a"', "}"]
+    for k, (nm, ins, dif) in enumerate(KNOWN):
+        lines += ["[" + nm + "]", "{"] + ["  %d = N %d 0" % (10 * j + k, j % 5) for j in range(170)] + ["}"]
+    return lines
+
+
+def _fs_text(offset, kind, mult):
+    """CRLF text in which the CR of a line of the wanted kind is character number mult*offset (1-based),
+    i.e. a reader working in blocks of `offset` characters sees the CR and the LF in different blocks."""
+    target = mult * offset - 1
+    lines = _fs_lines(0)
+    pos, best = 0, None
+    for i, ln in enumerate(lines):
+        cr = pos + len(ln)                       # index of this line's CR
+        if i > 2 and ln.strip()[:1] == kind and cr <= target:
+            best = cr
+        pos = cr + 2
+    if best is None:
+        return None
+    lines = _fs_lines(target - best)
+    text = "\r\n".join(lines) + "\r\n"
+    assert text[target] == "\r" and text[target + 1] == "\n"
+    return lines, text
+
+
+def crlf_file_scale(oi: int, ki: int, mult: int) -> bool:
+    """
+    pre: 0 <= oi < len(_FS_OFFSETS) and 0 <= ki < len(_FS_KINDS) and 1 <= mult <= 2
+    post: _
+    """
+    offset, kind, mult = H.pick(_FS_OFFSETS, oi), H.pick(_FS_KINDS, ki), H.pick([1, 2], mult - 1)
+    with H.untraced():      # concrete on every path: the solver only chooses the case
+        made = _fs_text(offset, kind, mult)
+        if made is None:
+            return done(True)
+        lines, crlf = made
+        lf = "\n".join(lines) + "\n"
+        log = H.CountingLogger()
+        with H.patched((C, "logger", log), (T_, "logger", log)):
+            a = Chart.from_file(io.StringIO(lf))
+            b = Chart.from_file(io.StringIO(crlf))
+        ok = observe(a) == observe(b) and a == b and len(log.warnings) == 0
+        ok = ok and len(a.instrument_tracks) == 10 and all(len(t.note_events) == 170 for dd in a.instrument_tracks.values() for t in dd.values())
+    return done(ok)
 
 
 # ---------------------------------------------------------------------------------------------
